@@ -151,6 +151,9 @@ package bttest
 //@   ensures fresh(result) ==> obj(result.Columns) == 0 && cap(result.Columns) == 0
 //@   ensures fresh(result) ==> forall i :: 0 <= i < old(len(r.Families)) ==> old(r.Families[i].Name) != name
 //@   ensures !fresh(result) ==> len(r.Families) == old(len(r.Families)) && obj(r.Families) == old(obj(r.Families))
+//@   ensures old(famSep(r.Families)) ==> famSep(r.Families)
+//@   ensures old(colSep(r)) ==> colSep(r)
+//@   ensures old(rowDesc(r)) ==> rowDesc(r)
 
 //@ func getOrCreateColumn
 //@   property C01 C05 C13
@@ -211,10 +214,18 @@ package bttest
 //@ func (t *table) cols
 //@   inline
 
+// Read protocol (C06), see /verif/contracts/trusted/bttest_ifaces.spec: the epoch of the critical section in which
+// the current thread last read a row from the store, and the identity of that row object.
+//@ ghostvar btReadEpoch epoch
+//@ ghostvar btReadRow int
+
 //@ func (t *table) getOrCreateRow
 //@   property C01 C06
 //@   held t.mu r
+//@   modifies ghost(btReadEpoch), ghost(btReadRow)
 //@   ensures rowRep(result) && fresh(result)
+//@   ensures btReadEpoch == epoch
+//@   ensures btReadRow == obj(result)
 
 //@ func modifyCell
 //@   property C05
@@ -255,3 +266,17 @@ package bttest
 // Injected callbacks: the clock and the error logger do not touch emulator state.
 //@ typeinv purefunc server.clock
 //@ typeinv purefunc LeveldbDiskStorage.ErrLog
+
+// Background GC loop (goroutine entry point; the server was built by NewServerWithOptions, so its clock is set).
+// The clock field is never written after construction (frame of every loop body).
+//@ func (s *server) gcloop
+//@   property C16
+//@   requires s != nil && s.clock != nil
+//@   requires nolocks()
+//@   modifies *
+//@   loop 1 invariant s.clock != nil && nolocks()
+//@   loop 2 invariant s.clock != nil && held(s.mu) == 2
+//@   loop 2 invariant cap(todos) == 0 || fresh(todos)
+//@   loop 2 invariant forall i :: 0 <= i < len(todos) ==> todos[i].tbl != nil
+//@   loop 3 invariant s.clock != nil && nolocks()
+//@   loop 3 invariant forall i :: 0 <= i < len(todos) ==> todos[i].tbl != nil
